@@ -1,6 +1,6 @@
 #!/usr/bin/env python3
 """Regenerate props/pinned_names.json: for every product function (lambdas included) the parameter names and the local
-names in declaration order, keyed by `qualified name|number of parameters|file`.  Run ONLY on the pinned tree: the file is a
+names in declaration order and the comparison expressions as (canonical lhs, operator, canonical rhs), keyed by `qualified name|number of parameters|file`.  Run ONLY on the pinned tree: the file is a
 frozen table, committed; sa/prog.py maps a changed tree's names onto it by position (see Program._pin_names)."""
 import json, os, sys
 os.environ['VERIF_NO_PIN'] = '1'
@@ -14,7 +14,7 @@ for f in P.fns:
     if f.body is None or f.body < 0:
         continue
     key = Program.pin_key(f.q, f)
-    ent = {'params': [p.get('n', '') for p in f.params], 'locals': [n for _d, n in Program.local_names(f)]}
+    ent = {'params': [p.get('n', '') for p in f.params], 'locals': [n for _d, n in Program.local_names(f)], 'cmps': Program.comparison_table(f)}
     if key in out and out[key] != ent:
         out[key] = {'ambiguous': True}
     else:
